@@ -114,6 +114,7 @@ type checkResult struct {
 	extra       map[string]any
 	bounded     []string
 	notes       []string
+	blSuffix    string // baseline file suffix for a second contract phase of the same property
 }
 
 func hasProp(props []string, p string) bool {
@@ -163,7 +164,8 @@ func contractPhase(cr *checkResult, w *symex.World, update bool) {
 	for _, e := range w.Errors {
 		cr.undecided = append(cr.undecided, fmt.Sprintf("UNDECIDED property=%s obligation=attach reason=%s", prop, e))
 	}
-	if b := loadBaseline(prop); b != nil && !update {
+	blKey := prop + cr.blSuffix
+	if b := loadBaseline(blKey); b != nil && !update {
 		w.LocalHints = b.Locals
 	}
 	results := make([]*symex.FuncResult, len(targets))
@@ -213,7 +215,7 @@ func contractPhase(cr *checkResult, w *symex.World, update bool) {
 	outs := symex.Discharge(obls, symex.SolveOpts{TimeoutMs: timeout, Dir: scratch, Parallel: 6, RequireTwo: cr.tier == "thorough", MaxRetry: maxRetry,
 		ExpectedToFail: func(name string) bool { return matchKnown(known, prop, name) != nil }})
 	baseApprox := map[string]bool{}
-	if b := loadBaseline(prop); b != nil {
+	if b := loadBaseline(blKey); b != nil {
 		for _, a := range b.Approx {
 			baseApprox[a] = true
 		}
@@ -302,9 +304,9 @@ func contractPhase(cr *checkResult, w *symex.World, update bool) {
 			ap = append(ap, a)
 		}
 		sort.Strings(ap)
-		saveBaselinePart(prop, names, ap, locals)
+		saveBaselinePart(blKey, names, ap, locals)
 	}
-	if b := loadBaseline(prop); b != nil {
+	if b := loadBaseline(blKey); b != nil {
 		have := map[string]bool{}
 		for _, n := range names {
 			have[n] = true
